@@ -63,7 +63,7 @@ func captureReinitHashes(w *world.World) map[string][]byte {
 }
 
 func checkC20(c *Ctx) {
-	c.Rule = "original ceremonies for (n,t), n<=4, under random delivery (some with an interleaved second round, signing and junk on the board) are reinitialised on fresh nodes with fresh communication keys and fresh machines from the same mnemonics through the real procedure (GenerateReDKGMessage, optionally stripped to the v0.1.4 shape + GetAdaptedReDKG, ReInitDKG, reinit operation through every machine, result back); plus the recorded v0.1.4 log of the repository with its mnemonics. Oracle: every node signing-idle with the original participants, threshold and public polynomial; every machine's share equals the original; a batch signed afterwards verifies (prysm) under the original group key; the confirmation hash is identical on all nodes and changes under every single-field edit of the reinit file. Half of the reinitialisations restart the restored machines before the reinit operation, a third enter set_seed a second time on them. Two fifths: one operator finishes his reinit and proposes a batch before the others return their reinit results. distinct = distinct (scenario, n, t) reinitialisations + distinct edited fields"
+	c.Rule = "original ceremonies for (n,t), n<=4, under random delivery (some with an interleaved second round, signing and junk on the board) are reinitialised on fresh nodes with fresh communication keys and fresh machines from the same mnemonics through the real procedure (GenerateReDKGMessage, optionally stripped to the v0.1.4 shape + GetAdaptedReDKG, ReInitDKG, reinit operation through every machine, result back); plus the recorded v0.1.4 log of the repository with its mnemonics. Oracle: every node signing-idle with the original participants, threshold and public polynomial; every machine's share equals the original; a batch signed afterwards verifies (prysm) under the original group key; the confirmation hash is identical on all nodes and changes under every single-field edit of the reinit file. Half of the reinitialisations restart the restored machines before the reinit operation, a third enter set_seed a second time on them. Two fifths: one operator finishes his reinit and proposes a batch before the others return their reinit results. The reinit message must carry exactly the new key handed in for every participant name. distinct = distinct (scenario, n, t) reinitialisations + distinct edited fields"
 	c.Assumptions = []string{"the dump contains the target round's complete key generation before the first signing proposal (the arrangement the tooling supports)", "the v0.1.4 log is judged against the group key announced in the log itself"}
 	// machines log their operations (so that a restart + replay after the reinitialisation is possible)
 	world.UseOpLog = true
@@ -335,6 +335,23 @@ func judgeReinit(c *Ctx, ce *Ceremony, re *types.ReDKG, origKey []byte, origComm
 	if !bytes.Equal(baseHash, h0) {
 		c.Violate("C20/hash-on-node-differs-from-hash-of-file", hex.EncodeToString(h0)+" vs "+hex.EncodeToString(baseHash), wit)
 	}
+	// "with fresh communication keys": the message the tool (or library) built carries, for every participant,
+	// exactly the new key that was handed in for that name
+	for _, p := range re.Participants {
+		for _, nd := range ce.W.Nodes {
+			if nd.Name == p.Name && !bytes.Equal(p.NewCommPubKey, nd.KeyPair.Pub) {
+				c.Violate("C20/reinit-message-lacks-a-participants-new-key", fmt.Sprintf("participant %q: the reinit message carries a new communication key of %d bytes that is not the key handed in for that name", p.Name, len(p.NewCommPubKey)), wit)
+			}
+		}
+	}
+	flip := func(b []byte) []byte {
+		if len(b) == 0 {
+			return []byte{1}
+		}
+		out := append([]byte{}, b...)
+		out[len(out)/2] ^= 1
+		return out
+	}
 	edits := 0
 	tryEdit := func(field string, f func(x *types.ReDKG)) {
 		var x types.ReDKG
@@ -354,9 +371,9 @@ func judgeReinit(c *Ctx, ce *Ceremony, re *types.ReDKG, origKey []byte, origComm
 	for i := range re.Participants {
 		i := i
 		tryEdit("participant.name", func(x *types.ReDKG) { x.Participants[i].Name += "x" })
-		tryEdit("participant.dkg_pub_key", func(x *types.ReDKG) { x.Participants[i].DKGPubKey[3] ^= 1 })
-		tryEdit("participant.old_comm_pub_key", func(x *types.ReDKG) { x.Participants[i].OldCommPubKey[3] ^= 1 })
-		tryEdit("participant.new_comm_pub_key", func(x *types.ReDKG) { x.Participants[i].NewCommPubKey[3] ^= 1 })
+		tryEdit("participant.dkg_pub_key", func(x *types.ReDKG) { x.Participants[i].DKGPubKey = flip(x.Participants[i].DKGPubKey) })
+		tryEdit("participant.old_comm_pub_key", func(x *types.ReDKG) { x.Participants[i].OldCommPubKey = flip(x.Participants[i].OldCommPubKey) })
+		tryEdit("participant.new_comm_pub_key", func(x *types.ReDKG) { x.Participants[i].NewCommPubKey = flip(x.Participants[i].NewCommPubKey) })
 	}
 	tryEdit("participants.dropped", func(x *types.ReDKG) { x.Participants = x.Participants[1:] })
 	tryEdit("participants.swapped", func(x *types.ReDKG) { x.Participants[0], x.Participants[1] = x.Participants[1], x.Participants[0] })
